@@ -258,7 +258,9 @@ fn eval_primary_expr(
         expr::PrimaryExpr::Function(func) => eval_func_expr(func, node, context),
         expr::PrimaryExpr::Literal(literal) => Ok(literal.to_string().as_value()),
         expr::PrimaryExpr::Number(number) => Ok(number.parse::<f64>().unwrap().as_value()),
-        expr::PrimaryExpr::Variable(_) => unimplemented!("Not support `VariableReference`."),
+        expr::PrimaryExpr::Variable(_) => Err(dom::error::Error::Dom(
+            dom::error::DomException::NotSupportErr,
+        ))?,
     }
 }
 
@@ -446,7 +448,9 @@ fn eval_node_test(
             }
             expr::NameTest::QName(qname) => equal_qname(qname, node, context),
         },
-        expr::NodeTest::PI(_) => unimplemented!("Not support `processing-instruction`."),
+        expr::NodeTest::PI(target) => {
+            Ok(node.node_type() == dom::NodeType::PI && node.node_name() == *target)
+        }
         expr::NodeTest::Type(ty) => match ty {
             expr::NodeType::Comment => Ok(node.node_type() == dom::NodeType::Comment),
             expr::NodeType::Node => Ok(true),
